@@ -27,7 +27,7 @@ let rec nat_of_int i = if i <= 0 then O else S (nat_of_int (i - 1))
 let addrs = [| "hub"; "reward"; "disp"; "reg"; "bsei"; "stsei"; "swap"; "oracle"; "airdrop";
                "owner"; "updater"; "keeper"; "nobody";
                "user0"; "user1"; "user2"; "user3"; "user4"; "user5"; "user6"; "user7" |]
-let denoms = [| "uatom"; "ujunk"; "usei"; "uusd" |]
+let denoms = [| "uAtom"; "ujunk"; "usei"; "uusd" |]
 let nvals = 8
 
 let index_of arr s =
@@ -114,8 +114,9 @@ let parse_op (line : string) : op =
       let (vs, r) = take_groups (int_of_string n) 1 rest (fun g -> val_of (List.hd g)) in
       expect_end r; OInstReg (addr_of s, addr_of h, vs)
   | "inst_bsei" :: s :: h :: n :: rest ->
+      (* an UPPER-CASE spelling of an address is the same account (case-insensitive canonical form) *)
       let (rows, r) = take_groups (int_of_string n) 2 rest
-          (function [a; x] -> (addr_of a, pn x) | _ -> failwith "row") in
+          (function [a; x] -> (addr_of (String.lowercase_ascii a), pn x) | _ -> failwith "row") in
       expect_end r; OInstBsei (addr_of s, addr_of h, rows)
   | "inst_stsei" :: s :: h :: mk :: n :: rest ->
       let (rows, r) = take_groups (int_of_string n) 2 rest
